@@ -407,6 +407,51 @@ func assignMatrix() []*Program {
 	return ps
 }
 
+// equalMatrix: == and != over containers whose difference is subtle - undefined members, key sets of equal size that differ,
+// the same members under other keys, int/float members, nested containers, immutable twins, member order.
+func equalMatrix() []*Program {
+	u := []mval{
+		{"{x:1,y:undef}", func() *Node { return Map([]string{"x", "y"}, []*Node{Int(1), Undef()}) }},
+		{"{x:1,z:undef}", func() *Node { return Map([]string{"x", "z"}, []*Node{Int(1), Undef()}) }},
+		{"{x:1}", func() *Node { return Map([]string{"x"}, []*Node{Int(1)}) }},
+		{"{x:1,y:2}", func() *Node { return Map([]string{"x", "y"}, []*Node{Int(1), Int(2)}) }},
+		{"{y:2,x:1}", func() *Node { return Map([]string{"y", "x"}, []*Node{Int(2), Int(1)}) }},
+		{"{x:2,y:1}", func() *Node { return Map([]string{"x", "y"}, []*Node{Int(2), Int(1)}) }},
+		{"{x:1.0,y:2}", func() *Node { return Map([]string{"x", "y"}, []*Node{Float16(16), Int(2)}) }},
+		{"imm{x:1,y:2}", func() *Node { return Imm(Map([]string{"x", "y"}, []*Node{Int(1), Int(2)})) }},
+		{"imm{x:1,y:undef}", func() *Node { return Imm(Map([]string{"x", "y"}, []*Node{Int(1), Undef()})) }},
+		{"{x:{y:undef}}", func() *Node { return Map([]string{"x"}, []*Node{Map([]string{"y"}, []*Node{Undef()})}) }},
+		{"{x:{z:undef}}", func() *Node { return Map([]string{"x"}, []*Node{Map([]string{"z"}, []*Node{Undef()})}) }},
+		{"{x:{}}", func() *Node { return Map([]string{"x"}, []*Node{Map(nil, nil)}) }},
+		{"{}", func() *Node { return Map(nil, nil) }},
+		{"[1,undef]", func() *Node { return Arr(Int(1), Undef()) }},
+		{"[1]", func() *Node { return Arr(Int(1)) }},
+		{"[undef,1]", func() *Node { return Arr(Undef(), Int(1)) }},
+		{"[1,2]", func() *Node { return Arr(Int(1), Int(2)) }},
+		{"[2,1]", func() *Node { return Arr(Int(2), Int(1)) }},
+		{"[1.0,2]", func() *Node { return Arr(Float16(16), Int(2)) }},
+		{"imm[1,2]", func() *Node { return Imm(Arr(Int(1), Int(2))) }},
+		{"[[1],[2]]", func() *Node { return Arr(Arr(Int(1)), Arr(Int(2))) }},
+		{"[[1],[]]", func() *Node { return Arr(Arr(Int(1)), Arr()) }},
+		{"[{x:undef}]", func() *Node { return Arr(Map([]string{"x"}, []*Node{Undef()})) }},
+		{"[{y:undef}]", func() *Node { return Arr(Map([]string{"y"}, []*Node{Undef()})) }},
+		{"[]", func() *Node { return Arr() }},
+		{"undef", func() *Node { return Undef() }},
+		{"error(undef)", func() *Node { return ErrE(Undef()) }},
+		{"\"\"", func() *Node { return Str("") }},
+		{"bytes(\"\")", func() *Node { return Call(Id("bytes"), Str("")) }},
+	}
+	var ps []*Program
+	for _, a := range u {
+		for _, b := range u {
+			ps = append(ps, cell(fmt.Sprintf("%s ==/!= %s", a.name, b.name),
+				Def("a", a.mk()), Def("b", b.mk()), Def("eq", Bin("==", Id("a"), Id("b"))), Def("ne", Bin("!=", Id("a"), Id("b"))),
+				Def("inarr", Bin("==", Arr(Id("a")), Arr(Id("b"))))))
+		}
+	}
+	return ps
+}
+
 func init() {
 	wrap := func(f func() []*Program) func(int64, int) []*Program {
 		return func(seed int64, n int) []*Program {
@@ -430,4 +475,5 @@ func init() {
 	families["m-call"] = wrap(callMatrix)
 	families["m-closure"] = wrap(closureMatrix)
 	families["m-assign"] = wrap(assignMatrix)
+	families["m-equal"] = wrap(equalMatrix)
 }
